@@ -3,6 +3,7 @@ package main
 import (
 	"fmt"
 	"os"
+	"os/exec"
 	"path/filepath"
 	"sort"
 	"strconv"
@@ -57,6 +58,13 @@ func intsTok(xs []int64) string {
 
 func suiteV19(c *vctx) {
 	r := c.r
+	// (4) a hanging hook is killed after its time limit and never delays the agent: runs beside
+	// the rest of the suite (it only sleeps), in one shard
+	var hang chan bool
+	if c.shard == 0 {
+		hang = make(chan bool)
+		go hangingHooks(c, hang)
+	}
 	R := 400 * time.Millisecond
 	Rms := int64(R / time.Millisecond)
 	// (1) timing patterns of notifications against the rate-limit timer
@@ -247,30 +255,63 @@ func suiteV19(c *vctx) {
 			}
 		}
 	}
-	// (4) thorough: a hanging hook is killed after its time limit and never delays the agent
-	if c.thorough() && c.shard == 0 {
-		dir := filepath.Join(c.work, "hang")
-		os.RemoveAll(dir)
-		os.MkdirAll(dir, 0755)
-		pidf := filepath.Join(c.work, "hang.pid")
-		os.WriteFile(filepath.Join(dir, "hang.sh"), []byte("#!/bin/sh\necho $$ > "+pidf+"\nexec sleep 600\n"), 0755)
-		a, err := newVAgent(c, "hangagent", 1, "", "", "", dir)
-		if err == nil {
-			t0 := time.Now()
-			a.iface.Init("root", "Root-Passw0rd")
-			resp := time.Since(t0)
-			c.emit("law.C19.hanging_hook_never_delays_agent", vtf(resp < 2*time.Second && a.iface.Check() == nil))
-			time.Sleep(63 * time.Second)
-			b, _ := os.ReadFile(pidf)
-			pid := strings.TrimSpace(string(b))
-			_, serr := os.Stat("/proc/" + pid)
-			alive := serr == nil
-			if alive { // a zombie entry may linger: check the state
-				st, _ := os.ReadFile("/proc/" + pid + "/stat")
-				alive = !strings.Contains(string(st), ") Z ")
-			}
-			c.emit("law.C19.hanging_hook_killed_after_limit", vtf(pid != "" && !alive))
+	if hang != nil {
+		<-hang
+	}
+}
+
+// hangingHooks: hooks that never return on their own — a plain sleeper, a shell that ignores
+// SIGTERM / SIGHUP / SIGINT, and one that blocks these signals and waits for a child — are
+// started through a real agent; the agent must answer at once, the hooks must be alive after
+// 10 s (the hang is real) and gone after the one-minute limit (hard-coded in runHook).
+func hangingHooks(c *vctx, done chan bool) {
+	defer close(done)
+	dir := filepath.Join(c.work, "hang")
+	os.RemoveAll(dir)
+	os.MkdirAll(dir, 0755)
+	kinds := map[string]string{
+		"sleeper":     "exec sleep 600\n",
+		"ignore-term": "trap '' TERM HUP INT QUIT\nwhile :; do sleep 1; done\n",
+		"wait-child":  "trap '' TERM HUP INT\nsleep 600 &\necho $! > " + filepath.Join(c.work, "hang-child.pid") + "\nwait\nwait\n",
+	}
+	for k, body := range kinds {
+		os.WriteFile(filepath.Join(dir, k+".sh"), []byte("#!/bin/sh\necho $$ > "+filepath.Join(c.work, "hang-"+k+".pid")+"\n"+body), 0755)
+	}
+	a, err := newVAgent(c, "hangagent", 1, "", "", "", dir)
+	if err != nil {
+		c.emit("law.C19.agent_starts hang "+vxs(err.Error()), "f")
+		return
+	}
+	a.iface.Init("root", "Root-Passw0rd")
+	t0 := time.Now()
+	aerr := a.iface.Add("u1", "Init-u1", false) // a successful change: the hooks are started
+	resp := time.Since(t0)
+	ok2 := a.iface.Check() == nil
+	c.emit("law.C19.hanging_hook_never_delays_agent", vtf(aerr == nil && resp < 2*time.Second && ok2))
+	alive := func(k string) (string, bool) {
+		b, _ := os.ReadFile(filepath.Join(c.work, "hang-"+k+".pid"))
+		pid := strings.TrimSpace(string(b))
+		if pid == "" {
+			return "", false
 		}
+		st, err := os.ReadFile("/proc/" + pid + "/stat")
+		return pid, err == nil && !strings.Contains(string(st), ") Z ")
+	}
+	time.Sleep(10 * time.Second)
+	for k := range kinds {
+		pid, al := alive(k)
+		c.emit("law.C19.hanging_hook_was_started_and_hangs kind="+k, vtf(pid != "" && al))
+	}
+	time.Sleep(time.Until(t0.Add(66 * time.Second)))
+	for k := range kinds {
+		pid, al := alive(k)
+		c.emit("law.C19.hanging_hook_killed_after_limit kind="+k, vtf(pid != "" && !al))
+		if al { // do not leave it behind
+			exec.Command("kill", "-9", pid).Run()
+		}
+	}
+	if b, err := os.ReadFile(filepath.Join(c.work, "hang-child.pid")); err == nil {
+		exec.Command("kill", "-9", strings.TrimSpace(string(b))).Run() // the orphaned sleeper of wait-child
 	}
 }
 
